@@ -94,6 +94,7 @@ SentLaws(n, es, lam, fresh) ==
             <<"theta-automorphism", \A v \in Variants(n) : v[1] \notin SwapKinds => \A p, q \in DOMAIN es : p < q =>
                   SEq(ThetaS(v[1], v[2], IBracket(es[p], es[q])), IBracket(ThetaS(v[1], v[2], es[p]), ThetaS(v[1], v[2], es[q])))>>,
             <<"theta-involutive", \A v \in Variants(n) : \A p \in DOMAIN es : SEq(ThetaS(v[1], v[2], ThetaS(v[1], v[2], es[p])), es[p])>>,
+            <<"no-arithmetic-bound", ~EchelonOvf(rows)>>,
             <<"echelon-triangular", EchelonOK(rows)>>,
             <<"echelon-size", Len(rows) <= Len(es) /\ Len(rows) <= Cardinality(supp)>>,
             <<"inputs-in-span", \A q \in DOMAIN es : InSpan(es[q], rows)>>,
